@@ -238,7 +238,8 @@ def strip_str(t):
 def flat_parts(t):
     """flatten fmt/concat into a list of parts"""
     t = strip_str(t)
-    if isinstance(t, Op) and t.op in ("fmt", "concat"):
+    if isinstance(t, Op) and t.op in ("fmt", "concat") or (isinstance(t, Op) and t.op == "add" and any(
+            isinstance(a, Op) and a.op in ("concat", "strmul", "getslice", "add", "fmt") for a in t.args)):
         out = []
         for a in t.args:
             out.extend(flat_parts(a))
